@@ -366,3 +366,14 @@ def wire(ctx):
     from . import c13
     c13.restricted(ctx, r'(core::RightSecretKey|core::RightPublicKey|core::Encapsulations|dimension::Attribute|core::XEnc)$',
                    [c13.agree, c13.fields])
+
+
+@rule('C11', 'refresh-preserves-flavour', configs=('default', 'p256'))
+def refresh_preserves_flavour(ctx):
+    """User keys hold ML-KEM material for exactly the hybridized rights *through refresh*: a user secret is kept only
+    when it equals a master secret as a whole RightSecretKey (flavour and ML-KEM key included), so a hybridized user
+    secret cannot stand for a downgraded (classic) master secret. Same rule as C05.subsequence, whose guards must be
+    full-type comparisons. Right secrets are assembled only by random / drop_hybridization / read / Clone."""
+    from . import c05, c16
+    c05.subsequence(ctx)
+    c16.secret_constructors(ctx)
